@@ -30,7 +30,14 @@ LabelModes == <<[label |-> "dog", empties |-> <<>>], [label |-> "__empty__", emp
                 [label |-> "NA", empties |-> <<<<"NA", "none">>>>], [label |-> "__empty__", empties |-> <<<<"NA", "none">>>>],
                 \* labels with surrounding whitespace: the label, unchanged, is the value ("with the label as value")
                 [label |-> " dog", empties |-> <<>>], [label |-> "song\n", empties |-> <<>>], [label |-> " ", empties |-> <<>>],
-                [label |-> "\tcall ", empties |-> <<>>]>>
+                [label |-> "\tcall ", empties |-> <<>>],
+                \* substrings of "__empty__" are ordinary labels: only a label IN empty_labels gives no tags
+                [label |-> "e", empties |-> <<>>], [label |-> "_", empties |-> <<>>], [label |-> "__", empties |-> <<>>],
+                [label |-> "empty", empties |-> <<>>], [label |-> "pty", empties |-> <<>>], [label |-> "m", empties |-> <<>>],
+                [label |-> "y", empties |-> <<<<"__empty__">>>>], [label |-> "none", empties |-> <<<<"NA", "none">>>>],
+                [label |-> "non", empties |-> <<<<"NA", "none">>>>],
+                \* the label "": the statement does not say whether it is "the empty label"; both outcomes are accepted
+                [label |-> "", empties |-> <<>>]>>
 ListOpts == IF Quick THEN {FALSE} ELSE BOOLEAN
 L2tCases == {[kind |-> "l2t", lm |-> m, fn |-> f, termmap |-> a, tagmap |-> b, keymap |-> d, key |-> k, term |-> t, fb |-> fb,
               fnlist |-> fl, tagmaplist |-> ~fl] :
@@ -90,7 +97,7 @@ ImpLists == {[kind |-> "impl", via |-> v, sr |-> 8, te |-> te, mode |-> m, ix |-
 ImpListKeep(k) == /\ (k.via = "annot_bbox" => k.mode = "sec") /\ (k.via = "annot_seq" => Len(k.ix) > 0)
                   /\ (Quick /\ k.te = <<1, 1>> /\ k.via # "annot_bbox") => k.mode = "smp"
 \* labels of list elements: distinct, two of them differing only by surrounding whitespace
-Lab(j) == CASE j = 2 -> " L1" [] j = 3 -> "L3 \n" [] OTHER -> "L" \o ToString(j)
+Lab(j) == CASE j = 1 -> "e" [] j = 2 -> " e" [] j = 3 -> "L3 \n" [] OTHER -> "L" \o ToString(j)
 El(mode, a, f, lab) == [sec |-> IF mode = "smp" THEN <<>> ELSE <<a[1], a[2]>>,
                         smp |-> IF mode = "smp" THEN <<a[1], a[2]>> ELSE IF mode = "both" THEN <<7, 9>> ELSE <<>>,
                         frq |-> f, label |-> lab]
@@ -267,7 +274,7 @@ TeOnceAt(el, e) ==
     /\ ((K.te = <<1, 1>>) => REq(ReqTime(el, e, K), FileTime(el, e, K)))
 LawTeOnce == IsImp => (\A j \in DOMAIN K.els : \A e \in 1..2 : TeOnceAt(K.els[j], e))
 \* the cascade table is total; where the two readings agree it is deterministic; the anchors of the two readings
-L2t == c.kind = "l2t"
+L2t == c.kind = "l2t" /\ LabelModes[c.lm].label # ""          \* (for "" the extra outcome "no tags" is accepted: not covered by the laws)
 LawCascadeTotal == L2t => AllowedTags(K.to) # {} /\ DocTags(K.to) # {} /\ SumTags(K.to) # {}
 LawCascadeDet   == L2t => ((Cardinality(DocTags(K.to)) = 1 /\ DocTags(K.to) = SumTags(K.to)) => Cardinality(AllowedTags(K.to)) = 1)
 LawEmptyWins    == (L2t /\ LabelEmpty(K.to)) => AllowedTags(K.to) = {<<>>}
